@@ -318,10 +318,10 @@ def main(argv=None):
     res, sk = R.run_sharded(worker, rnd, 3000)
     rep.add_results("ancestry (seeded larger trees, sampled triples)", res, sk, exhaustive=False)
     import superrec2.utils.trees as T
-    rep.functions = R.source_digest(RMQ.RangeMinQuery.__init__, RMQ.RangeMinQuery.__call__, RMQ._ilog2, T._euler_tour,
+    rep.functions = R.safe_digest(lambda: R.source_digest(RMQ.RangeMinQuery.__init__, RMQ.RangeMinQuery.__call__, RMQ._ilog2, T._euler_tour,
                                     T.LowestCommonAncestor.__init__, T.LowestCommonAncestor.__call__, T.LowestCommonAncestor.is_ancestor_of,
                                     T.LowestCommonAncestor.is_strict_ancestor_of, T.LowestCommonAncestor.is_comparable,
-                                    T.LowestCommonAncestor.level, T.LowestCommonAncestor.distance)
+                                    T.LowestCommonAncestor.level, T.LowestCommonAncestor.distance))
     rep.bounds = {"range-minimum": f"array length 1..{n_ite}, elements = unconstrained symbolic integers, every (start, stop) in [0,n]^2 "
                                    f"(empty and reversed ranges included); lengths 1..{n_fork} additionally with the real builtin min",
                   "_ilog2": "every value in [1, 2^24)",
